@@ -185,3 +185,79 @@ func matchIndexes(st *Status) string {
 func TestVerifC10_ProcChangeNth(t *testing.T) {
 	rapid.Check(t, c10ProcSession)
 }
+
+// --accept-nth picks its fields from the line as it was read (less its control sequences under
+// --ansi), whatever --with-nth makes of the line for display and search. One line is singled
+// out by a query on its unique first field and printed through --select-1.
+func c10ProcAcceptNth(t *rapid.T) {
+	delimArg := rapid.SampledFrom([]string{"", ",", ":", "[,;]+"}).Draw(t, "delim")
+	sep := map[string][]string{"": {" ", "  ", "\t"}, ",": {","}, ":": {":"}, "[,;]+": {",", ";", ",;"}}[delimArg]
+	ansi := rapid.Bool().Draw(t, "ansi")
+	n := rapid.IntRange(1, 8).Draw(t, "nlines")
+	lines := make([]string, n)
+	for i := range lines {
+		var sb strings.Builder
+		nf := rapid.IntRange(1, 4).Draw(t, "nfields")
+		for f := 0; f < nf; f++ {
+			if f > 0 {
+				sb.WriteString(rapid.SampledFrom(sep).Draw(t, "sep"))
+			}
+			w := rapid.SampledFrom(c10Words).Draw(t, "word")
+			if f == 0 {
+				w = fmt.Sprintf("id%dq", i)
+			}
+			if ansi && rapid.IntRange(0, 2).Draw(t, "coloured") == 0 {
+				// (fields are cut from the line as read: a sequence that contains a delimiter character
+				// would be cut in two, which no documentation covers)
+				sgrs := []string{"\x1b[31m", "\x1b[1;44m", "\x1b[38;5;208m"}
+				if strings.Contains(delimArg, ";") {
+					sgrs = []string{"\x1b[31m", "\x1b[4m", "\x1b[7m"}
+				}
+				w = rapid.SampledFrom(sgrs).Draw(t, "sgr") + w + rapid.SampledFrom([]string{"\x1b[m", "\x1b[0m", ""}).Draw(t, "reset")
+			}
+			sb.WriteString(w)
+		}
+		lines[i] = sb.String()
+	}
+	pick := rapid.IntRange(0, n-1).Draw(t, "pick")
+	withNth := rapid.SampledFrom([]string{"", "", "..", "1", "1,3", "3,1", "2,1", "1..2", "-1,1"}).Draw(t, "withNth")
+	acceptNth := rapid.SampledFrom([]string{"1", "2", "3", "-1", "2..", "..2", "2,1", "1,3", "-2.."}).Draw(t, "acceptNth")
+	args := []string{"--select-1", "--query", fmt.Sprintf("id%dq", pick), "--accept-nth", acceptNth}
+	if delimArg != "" {
+		args = append(args, "--delimiter", delimArg)
+	}
+	if withNth != "" {
+		args = append(args, "--with-nth", withNth)
+	}
+	if ansi {
+		args = append(args, "--ansi")
+	}
+	d := delimOf(delimArg)
+	orig := lines[pick]
+	if ansi {
+		orig = oracle.StripAnsi(orig)
+	}
+	var sb strings.Builder
+	for _, e := range strings.Split(acceptNth, ",") {
+		r, ok := oracle.ParseFieldRange(e)
+		if !ok {
+			t.Fatalf("generator: %q", e)
+		}
+		txt, _, _ := oracle.Select(oracle.Split(orig, d), r)
+		sb.WriteString(txt)
+	}
+	want := oracle.StripLastDelim(sb.String(), d) + "\n"
+	got, code := runFilterProc(t, args, []byte(strings.Join(lines, "\n")+"\n"), nil)
+	nt := withNth != "" && withNth != ".." && len(oracle.Split(orig, d)) >= 2
+	vstat.Case("C10/proc-accept-nth", fmt.Sprintf("%q|%q", args, lines), nt, "delim="+delimArg, "withNth="+withNth, fmt.Sprintf("ansi=%v", ansi))
+	if nt && vstat.WantSample("C10/proc-accept-nth") {
+		vstat.Sample("C10/proc-accept-nth", map[string]interface{}{"args": args, "line": lines[pick], "printed": string(got)})
+	}
+	if code != 0 || string(got) != want {
+		t.Fatalf("fzf %q on the lines %q (status %d) prints %q; fields %s of the line %q are %q", args, lines, code, got, acceptNth, orig, want)
+	}
+}
+
+func TestVerifC10_ProcAcceptNth(t *testing.T) {
+	rapid.Check(t, c10ProcAcceptNth)
+}
